@@ -135,10 +135,11 @@ def oracle(script, out, segs=None):
     segment count formula."""
     cfg = parse_header(script[0])
     tree, nreals, _nf, hinted = space_info(cfg)
-    stats = {"n0_invalid_excluded": 0, "ambiguous": 0, "calls": 0, "nontrivial": 0}
+    stats = {"n0_invalid_excluded": 0, "ambiguous": 0, "calls": 0, "nontrivial": 0, "nopath": 0}
     if len(out) < len(script) - 1:
         return (len(out), "implementation stopped early (crash or sanitizer report)"), stats
     inv = set()
+    nopath = False       # Owen: getPath found no path for the pairs that follow (outside the property; only compared)
     prev_cnt = None
     pair_verdicts = {}   # (states text, frozenset(inv)) -> {form: v}
     for i, line in enumerate(script[1:]):
@@ -150,7 +151,10 @@ def oracle(script, out, segs=None):
         if op == "invalid":
             inv = set(int(x) for x in t[2:])
             continue
-        if op in ("hint", "seg"):
+        if op == "hint":
+            nopath = len(t) == 3 and t[2] == "0"
+            continue
+        if op == "seg":
             continue
         if op == "list":
             count, total = int(t[1]), int(t[2])
@@ -187,6 +191,10 @@ def oracle(script, out, segs=None):
         stats["calls"] += 1
         if n >= 3:
             stats["nontrivial"] += 1
+        if nopath:
+            stats["nopath"] += 1
+            prev_cnt = tuple(map(int, kv["cnt"].split("->")[1].split("/")))
+            continue
         if int(kv["amb"]) > 0:
             stats["ambiguous"] += 1   # two subdivision points are the same state: the index predicate is not
             continue                  # a predicate on states; excluded (counted)
@@ -343,7 +351,7 @@ def near_state(r, cfg, tree, a, scale):
 def gen_spaces(r, tier):
     """R^n, SO(2) across the seam, SE(2), flat and nested compounds: identical, adjacent, far pairs."""
     out = []
-    reps = 8 if tier == "thorough" else 3
+    reps = 10 if tier == "thorough" else 6
     for space in ["rn", "so2", "se2", "cmpd", "cmpd2"] * reps:
         frac = r.choice([0.01, 0.05, 0.002, 1.0 / 64])
         cfg = {"space": space, "validator": "default", "frac": frac, "lo": r.choice([-1.0, 0.0, -10.0]),
@@ -391,7 +399,7 @@ def gen_spaces(r, tier):
 def gen_hinted_pairs(r, tier):
     """Dubins, symmetric Dubins, Reeds-Shepp (own validators and the discrete one), Owen (Dubins3D validator)."""
     out = []
-    reps = 6 if tier == "thorough" else 2
+    reps = 8 if tier == "thorough" else 4
     for space, validator in [("dubins", "default"), ("rs", "default"), ("dubinssym", "default"), ("dubins", "discrete"),
                              ("rs", "discrete"), ("owen", "default")] * reps:
         cfg = {"space": space, "validator": validator, "frac": r.choice([0.01, 0.03, 0.005]), "lo": -5.0, "hi": 5.0, "dim": 1,
@@ -566,6 +574,7 @@ def account(ck, tag, script, impl, stats):
     ck.count("calls", stats["calls"])
     ck.count("excluded:n=0 invalid end state (fraction -1/0)", stats["n0_invalid_excluded"])
     ck.count("excluded:ambiguous subdivision (identical interpolants)", stats["ambiguous"])
+    ck.count("excluded:Owen getPath found no path (compared with the model only)", stats["nopath"])
     cfg = parse_header(script[0])
     last_inv = ""
     for i, ln in enumerate(script[1:]):
@@ -662,9 +671,6 @@ def hinted_scripts(ck, hbin, r, tier):
                 continue
             hint = n if cfg["space"] != "owen" else (n, int(kv.get("path", "1")))
             segs["%s %s" % (st(a), st(b))] = (bits2f(kv["dist"]), bits2f(kv["L"]))
-            if cfg["space"] == "owen" and kv.get("path") == "0":
-                ck.count("owen:no-path pairs (not judged)")
-                continue
             for kind in ["none", "end", r.choice(KINDS), r.choice(KINDS)]:
                 lines += group(a, b, rnd_inv(r, n, kind), hint=hint)
         out.append(("hinted-%s-%s" % (cfg["space"], cfg["validator"]), lines, segs))
